@@ -96,3 +96,14 @@ Theorem C11_child_sound : forall p ctx r j,
   end.
 Proof. exact child_sound. Qed.
 Print Assumptions C11_child_sound.
+
+(* ---- the project level -------------------------------------------------------------------- *)
+(* an unqualified search goes through exactly the documented collections, each once, those of the
+   project itself before those of external projects *)
+Theorem C11_project_order :
+  (forall c, In c all_doc_collections <-> In c project_order) /\
+  exists own ext, project_order = own ++ ext /\
+    forallb (fun n => negb (is_ext n)) own = true /\ forallb is_ext ext = true /\
+    NoDup project_order.
+Proof. exact (conj in_all_doc_collections project_order_shape). Qed.
+Print Assumptions C11_project_order.
